@@ -312,9 +312,6 @@ def rt_learners(seed, n):
             def spy(pomdp_, V, node, **kw):
                 seen.append(np.array(V, dtype=float).copy())
                 return bpi.improve_node_matrix_constraint(pomdp_, V, node, **kw)
-            from symrun import frame as _frame
-            import msdm.core.pomdp.finitestatecontroller as _fsc_mod, msdm.core.pomdp.tabularpomdp as _tp_mod
-            fr0 = _frame.snapshot([bpi, ga, _fsc_mod, _tp_mod])
             st = np.random.get_state()[1][:5].tolist()
             res = bpi.FSCBoundedPolicyIteration(controller_state_count=rnd.choice([1, 2]), iterations=rnd.choice([2, 6]), seed=k, improve_node_fn=spy).train_on(pomdp)
             untouched = np.random.get_state()[1][:5].tolist() == st
@@ -333,8 +330,6 @@ def rt_learners(seed, n):
                 mono = False
         out.append(dict(name='rt:BPI:no-node-value-decreases-between-successive-improvements', ok=mono, witness=w))
         out.append(dict(name='rt:BPI:global-numpy-generator-untouched', ok=untouched, witness=w))
-        ch = _frame.changes(fr0, _frame.snapshot([bpi, ga, _fsc_mod, _tp_mod]))
-        out.append(dict(name='rt:BPI:frame:no-module-level-or-class-level-state-is-left-behind-by-a-training-run', ok=not ch, witness=w, detail='; '.join(ch)))
         with warnings.catch_warnings():
             warnings.simplefilter('ignore')
             tst = torch.random.get_rng_state().tolist()[:8]
